@@ -492,6 +492,22 @@ def model_xml(tree, outputs, direct=True, multi=None):
                        i, i, i, X.literal_expression("Id"), X.literal_expression(text)))
         els.append('<decision name="Call %d" id="_call%d"><variable name="Call %d"/><knowledgeRequirement><requiredKnowledge href="#_id"/>'
                    '</knowledgeRequirement>%s</decision>' % (i, i, i, X.literal_expression("Id(%s)" % text)))
+    # the typed knowledge model whose logic is NOT a literal expression - a decision table (one rule that always matches), a boxed context
+    # (result in its last entry) - reached through a literal call from an untyped decision and by name: the declared type of the
+    # function's result applies whatever kind of logic produces the value
+    for i, v in enumerate(outputs):
+        text = feel_text(v)
+        table = X.decision_table({"hit_policy": "UNIQUE", "inputs": [{"expr": "q"}], "outputs": [{"name": None}], "rules": [{"in": ["-"], "out": [text]}]})
+        els.append('<businessKnowledgeModel name="Tbl %d" id="_tbl%d"><variable name="Tbl %d" typeRef="%s"/><encapsulatedLogic>'
+                   '<formalParameter name="q"/>%s</encapsulatedLogic></businessKnowledgeModel>' % (i, i, i, tr, table))
+        boxed = '<context><contextEntry><variable name="w"/>%s</contextEntry><contextEntry>%s</contextEntry></context>' % (
+            X.literal_expression(text), X.literal_expression("w"))
+        els.append('<businessKnowledgeModel name="Box %d" id="_box%d"><variable name="Box %d" typeRef="%s"/><encapsulatedLogic>%s'
+                   '</encapsulatedLogic></businessKnowledgeModel>' % (i, i, i, tr, boxed))
+        els.append('<decision name="TCall %d" id="_tcall%d"><variable name="TCall %d"/><knowledgeRequirement><requiredKnowledge href="#_tbl%d"/>'
+                   '</knowledgeRequirement>%s</decision>' % (i, i, i, i, X.literal_expression("Tbl %d(1)" % i)))
+        els.append('<decision name="BCall %d" id="_bcall%d"><variable name="BCall %d"/><knowledgeRequirement><requiredKnowledge href="#_box%d"/>'
+                   '</knowledgeRequirement>%s</decision>' % (i, i, i, i, X.literal_expression("Box %d()" % i)))
     if multi is not None:
         # decision service `Multi` : T with one (untyped) output decision per entry of the context value outputs[multi]: its result is the
         # context of the output decisions' results, coerced to T like any other result
@@ -508,8 +524,12 @@ def invocable_names(n_outputs, keys=None):
     names = ["Echo"]
     for i in range(n_outputs):
         names += ["Out %d" % i, "Raw %d" % i, "Inv %d" % i, "Call %d" % i]
+    for i in range(n_outputs):
+        names += ["TCall %d" % i, "BCall %d" % i]
     names += list(keys or [])
     names.append("Id")
+    for i in range(n_outputs):
+        names += ["Tbl %d" % i, "Box %d" % i]
     names += ["Svc %d" % i for i in range(n_outputs)]
     if keys:
         names.append("Multi")
